@@ -724,6 +724,18 @@ def run_inventory(F, rep, tier, pid, roots, floors, what):
             if k not in used_audits and same_file and all(g in sigs for g in au.get("guards", [])) and all(g in rg for g in au.get("rguards", [])):
                 hit = k
                 break
+        if hit is None:
+            # second level: the same computation on inputs fetched differently (a block moved into a helper reads parameters instead of fields / payloads)
+            aops = abstract_ops(opsig)
+            if any("(" in x for x in aops):          # only genuine computations, not a bare variable
+                for k, au in audits.items():
+                    if k in used_audits or "ops" not in au or k.split("|", 1)[1].rsplit("#", 1)[0] != kw:
+                        continue
+                    same_file = au.get("file") is not None and where is not None and au["file"] == where.rsplit(":", 1)[0]
+                    if same_file and abstract_ops(au["ops"]) == aops and set(abstract_guards(au.get("guards", []))) <= set(abstract_guards(sigs)) \
+                            and len(au.get("rguards", [])) <= len(rg):
+                        hit = k
+                        break
         if hit is not None:
             used_audits.add(hit)
             by_rule["audited"] += 1
@@ -735,6 +747,70 @@ def run_inventory(F, rep, tier, pid, roots, floors, what):
     rep.floor(r1, "reachable bodies", len(seen), floors["bodies"])
     rep.floor(r1, "panic-capable sites", nsites, floors["sites"])
     recursion_rule(F, G, rep, r2, seen, pid)
+
+
+COMPUTE_HEADS = {"Add", "Sub", "Mul", "Div", "Rem", "Neg", "Not", "BitAnd", "BitOr", "BitXor", "Shl", "Shr", "Cast", "AddWithOverflow", "SubWithOverflow", "MulWithOverflow"}
+COMPUTE_TAILS = ("::count", "::chars", "::len", "::abs", "::unsigned_abs", "::min", "::max", "::chars_count")
+
+
+def abstract_ops(ops):
+    """operand signatures with their *sources* (parameters, fields, accessor calls) replaced by numbered placeholders: the computation an audit argues
+    about, independent of where its inputs are fetched from (a block moved into a helper fetches them from parameters)"""
+    srcs = {}
+
+    def parse(t, i):
+        # term := head [ '(' term {',' term} ')' ] { '.' digits }
+        j = i
+        depth = 0
+        while j < len(t) and (t[j] not in "(),"):
+            j += 1
+        head = t[i:j]
+        args = []
+        if j < len(t) and t[j] == "(":
+            j += 1
+            while True:
+                a, j = parse(t, j)
+                args.append(a)
+                if j < len(t) and t[j] == ",":
+                    j += 1
+                    continue
+                break
+            if j < len(t) and t[j] == ")":
+                j += 1
+        k = j
+        while k < len(t) and (t[k] == "." or t[k].isdigit()):
+            k += 1
+        return (head, args, t[j:k]), k
+
+    def text(n):
+        head, args, proj = n
+        return head + ("(" + ",".join(text(a) for a in args) + ")" if args else "") + proj
+
+    def ab(n):
+        head, args, proj = n
+        h = head.strip()
+        if args and (h in COMPUTE_HEADS or h.endswith(COMPUTE_TAILS)):
+            return h.split("::")[-1] + "(" + ",".join(ab(a) for a in args) + ")"
+        if not args and re.fullmatch(r"-?\d+", h):
+            return h
+        key = text(n)
+        if not re.search(r"\barg\d", key) and not ((not args and h in ("var", "place", "const")) or re.fullmatch(r"field\d+", h)):
+            return key            # a value made here (Vec::new(), a literal aggregate ...): where it comes from is part of the computation
+        if key not in srcs:
+            srcs[key] = "SRC%d" % (len(srcs) + 1)
+        return srcs[key]
+    out = []
+    for o in ops or []:
+        try:
+            n, _ = parse(str(o), 0)
+            out.append(ab(n))
+        except Exception:
+            out.append("?")
+    return out
+
+
+def abstract_guards(gs):
+    return sorted({re.sub(r"^(cmp:[^:]+):[^:]+:", r"\1:*:", g) for g in gs})
 
 
 def path_text(G, pred, n):
